@@ -43,7 +43,7 @@ RULE = ('Archives: every ordered tar archive of 1..2 members (3 in thorough; qui
         'from 11 sources (files, directories, links to them, directories containing links, trailing "/", "/." and '
         '"/..") x {copy, link, copyout} (pairs: copy/link in quick). Combos: a link/copy reference of a directory '
         'staged before (1-member archives: also after) an :extract of every 1-member archive (2-member in thorough). Manifests: every '
-        'ordered manifest of 1..2 distinct keys (3 in thorough) from {a, a/b, ../x, a/../../x, ./a, <abs>, conf, data} x {copy, '
+        'ordered manifest of 1..2 distinct keys (3 in thorough) from {a, a/b, ../x, a/../../x, ./a, <abs>, conf, data, ../<instance dir name>x} x {copy, '
         'link} (1-key: also the default method; also given as a YAML file), deployed by expandPackageToDirectory and by '
         'experimentFromPackage (with data=[big.csv] when a copied folder is deployed as `data`); every source folder '
         'holds a file, a sub-folder, links, and links named like the files deployment writes later (flowir_package.yaml, '
@@ -448,6 +448,11 @@ def run_stageref_case(col, case, graph, base):
 _INST_RE = re.compile(r'^work/flow(-[0-9T.\-]+)?\.instance(/|$)')
 
 
+def _key(key, abs_dir):
+    """A manifest key with its placeholders replaced (the instance directory is always <work>/flow[-stamp].instance)."""
+    return G.subst(key, abs_dir).replace(G.INSTNAME, 'flow.instance')
+
+
 def run_manifest_case(col, case):
     """case: {'part': M|E, 'manifest': [[key, method, src index], ...], 'as_file': bool}"""
     import yaml
@@ -496,14 +501,16 @@ def run_manifest_case(col, case):
         for key, method, si in case['manifest']:
             src_rel = tokens[si] if isinstance(si, str) else 'src%d' % si
             per_entry_source.append(os.path.join(pkg_dir, src_rel))
-            man[G.subst(key, abs_dir)] = src_rel + (':%s' % method if method else '')
+            man[_key(key, abs_dir)] = src_rel + (':%s' % method if method else '')
         if len(man) != len(case['manifest']):
             raise HarnessError('manifest keys collide: %r' % (case['manifest'],))
         manifest_arg = man
         if case.get('as_file'):
             manifest_arg = os.path.join(pkg_dir, 'manifest.yaml')
             _write(manifest_arg, yaml.safe_dump(man, sort_keys=False))
-        entries = [(G.subst(k, abs_dir), m or 'copy', i) for i, (k, m, _) in enumerate(case['manifest'])]
+        entries = [(_key(k, abs_dir), m or 'copy', i) for i, (k, m, _) in enumerate(case['manifest'])]
+        # a key that refers to the instance directory's own name needs a predictable name: no time stamp then
+        stamp = not any(G.INSTNAME in k for k, _, _ in case['manifest'])
         features = SB.manifest_features(entries)
         # a data file is replaced (data=[...]) when the manifest deploys a COPY of a folder as `data`; with a linked
         # data folder the replacement lands in the link's source by the user's own request (not judged: not passed)
@@ -518,7 +525,8 @@ def run_manifest_case(col, case):
                 if part == 'M':
                     pkg.expandPackageToDirectory(inst, pkg.configuration.file_format)
                 else:
-                    exp = experiment.model.data.Experiment.experimentFromPackage(pkg, location=work, data=data_arg)
+                    exp = experiment.model.data.Experiment.experimentFromPackage(pkg, location=work, data=data_arg,
+                                                                                 timestamp=stamp)
                     inst = exp.instanceDirectory.location
             except Exception as e:
                 exc = e
@@ -752,7 +760,7 @@ def case_features(case):
     """The hostile features of a case computed from the case alone (same letters as the oracle module)."""
     part = case.get('part')
     if part in ('M', 'E'):
-        return SB.manifest_features([(k.replace(G.ABS, '/ABS'), m or 'copy') for k, m, _ in case['manifest']])
+        return SB.manifest_features([(_key(k, '/ABS'), m or 'copy') for k, m, _ in case['manifest']])
     members = G.realise(case.get('archive') or [], '/ABS', '/WD')
     if part == 'S':
         return SB.archive_features(members)
